@@ -40,11 +40,13 @@ C19_INST = {"files": [
 
 CHECKS = {
     "C01": {
-        "bounds": {"quick": "tokenizer: all byte strings <= 2 bytes (all values), <= 3 (lexical alphabet), <= 5 (comment alphabet); low-level parser: every token sequence of <= 2 symbolic tokens drawn from a 150-row lexeme table (statement/clause keywords, operators, literals, and rows no tokenizer produces: type-less, empty literal, mismatched literal, unknown type) at statement start and after SELECT / SELECT a FROM / SELECT a FROM t WHERE, with and without a trailing EOF, strict x dialect symbolic; truncations: every prefix (cut at every token) of a 34-statement corpus covering each parser production (MATCH..AGAINST, CASE/CAST, window frames, ROLLUP/CUBE/GROUPING SETS, FETCH/FOR UPDATE, JSON/array operators, joins, sub-query predicates, SUBSTRING/EXTRACT/POSITION, recursive CTE, set operations, INSERT..ON CONFLICT/ON DUPLICATE KEY, REPLACE, UPDATE, DELETE, MERGE, CREATE TABLE/INDEX/VIEW/MATERIALIZED VIEW, REFRESH, ALTER TABLE/ROLE/POLICY, DROP, TRUNCATE, SHOW, DESCRIBE, TOP, DISTINCT ON/WINDOW, WITHIN GROUP, casts and tuples), with and without EOF, dialect symbolic; accepted trees are serialised with AST.SQL",
-                   "thorough": "tokenizer <= 3 bytes all values / <= 4 lexical / <= 7 comment; parser <= 3 symbolic tokens in each context; every truncation continued by one symbolic token"},
-        "outside": "inputs longer than the bounds; formatting / extraction / scanning / linting entry points (covered at kernel strength by C06, C14-C17); the Go runtime; regex paths on symbolic text",
+        "bounds": {"quick": "tokenizer: all byte strings <= 2 bytes (all values), <= 3 (lexical alphabet), <= 5 (comment alphabet); low-level parser: every token sequence of <= 2 symbolic tokens drawn from a 150-row lexeme table (statement/clause keywords, operators, literals, and rows no tokenizer produces: type-less, empty literal, mismatched literal, unknown type) at statement start and after SELECT / SELECT a FROM / SELECT a FROM t WHERE, with and without a trailing EOF, strict x dialect symbolic; truncations: every prefix (cut at every token) of a 34-statement corpus covering each parser production (MATCH..AGAINST, CASE/CAST, window frames, ROLLUP/CUBE/GROUPING SETS, FETCH/FOR UPDATE, JSON/array operators, joins, sub-query predicates, SUBSTRING/EXTRACT/POSITION, recursive CTE, set operations, INSERT..ON CONFLICT/ON DUPLICATE KEY, REPLACE, UPDATE, DELETE, MERGE, CREATE TABLE/INDEX/VIEW/MATERIALIZED VIEW, REFRESH, ALTER TABLE/ROLE/POLICY, DROP, TRUNCATE, SHOW, DESCRIBE, TOP, DISTINCT ON/WINDOW, WITHIN GROUP, casts and tuples), with and without EOF, dialect symbolic; accepted trees are serialised with AST.SQL; linting: linter.LintString with the CLI's ten default rules plus every fixable rule's Fix on every text of <= 3 words from a 20-word table (clause keywords, names, punctuation, comment, newline), alone and after SELECT a FROM t",
+                   "thorough": "linting <= 4 words; tokenizer <= 3 bytes all values / <= 4 lexical / <= 7 comment; parser <= 3 symbolic tokens in each context; every truncation continued by one symbolic token"},
+        "outside": "inputs longer than the bounds; formatting / extraction / scanning entry points (covered at kernel strength by C06, C14-C16); the Go runtime; regex paths on symbolic text",
         "assumptions": ["termination = every path stays inside the instruction and call-depth budget (unwinding assertion); exceeding it is reported as a candidate hang and replayed natively under a timeout"],
-        "runs": tokruns([], ["VxC04_All2", "VxC04_Lex3", "VxC04_Cmt5"], ["VxC04_All3", "VxC04_Lex4", "VxC04_Cmt7"], generic=["panic", "unwind"]) + parruns(["VxSoup_Start2", "VxSoup_Select2", "VxSoup_From2", "VxSoup_Where2", "VxSoup_Cut0"], ["VxSoup_Start3", "VxSoup_Select3", "VxSoup_From3", "VxSoup_Where3", "VxSoup_Cut1"], ["C01.value_or_error"], generic=["panic", "unwind"]),
+        "runs": tokruns([], ["VxC04_All2", "VxC04_Lex3", "VxC04_Cmt5"], ["VxC04_All3", "VxC04_Lex4", "VxC04_Cmt7"], generic=["panic", "unwind"]) + parruns(["VxSoup_Start2", "VxSoup_Select2", "VxSoup_From2", "VxSoup_Where2", "VxSoup_Cut0"], ["VxSoup_Start3", "VxSoup_Select3", "VxSoup_From3", "VxSoup_Where3", "VxSoup_Cut1"], ["C01.value_or_error"], generic=["panic", "unwind"]) + [
+            {"pkg": "cmd/gosqlx/cmd", "harness": h, "tiers": [t], "expect_asserts": ["C01.lint_returns"], "generic": ["panic", "unwind"], "budget_is_violation": True, "thorough": {"timeout": 7200}}
+            for h, t in (("VxC01_Lint3", "quick"), ("VxC01_LintFrom3", "quick"), ("VxC01_Lint4", "thorough"), ("VxC01_LintFrom4", "thorough"))],
     },
     "C02": {
         "bounds": {"quick": "byte limit: every input length 0..32 MiB (symbolic 32-bit length, content never read) for Tokenize and TokenizeContext; token limit: source instantiated at MaxTokens=2, all inputs <= 5 bytes over {a space ,}; depth limit: every current depth 0..200 for parseExpression and parseCommonTableExpr; recursion accounting: every *Parser method re-entered while active must see a larger depth, for all <= 3-token continuations (150-row statement/expression lexeme table) of 5 contexts (statement start, SELECT, SELECT * FROM, SELECT * FROM t JOIN, SELECT a FROM t WHERE) and every start depth 0..89",
